@@ -178,3 +178,16 @@ CHECKS["C15"] = {
         c15g("run.pl.grammar.parts", "VerifH_C14_parts"), c15g("run.pl.grammar.multivariant", "VerifH_C14_multivariant"),
     ],
 }
+
+C16F = [G + "c16_multivariant.go", G + "c06_reload.go"] + MUX
+CHECKS["C16"] = {
+    "technique": "symbolic track lists through the real Start and generateMultivariantPlaylist; multivariant checks inside the bounded muxer runs; non-linear lemma on bandwidth()",
+    "bounds": {"quick": {"layout": "1..3 tracks of {H264, MPEG-4 audio, Opus}, name/language/default set or not, fMP4 and Low-Latency", "runs": "as C01 (K=4)", "bandwidth": "1..3 listed segments (+2 gaps), sizes in [1,2^30], durations in [0,2^36] ns"},
+               "thorough": {"layout": "same", "runs": "as C01 thorough", "bandwidth": "1..4 segments"}},
+    "assumptions": MUX_STUBS + ["RESOLUTION / FRAME-RATE compared against the stubbed SPS fields (1920x1080, 30 fps); natively against the real parser on the same SPS"],
+    "outside": ["RFC 6381 strings of H265 / AV1 / VP9", "peak/mean equality for multi-stream muxers (the statement only claims it for single-stream ones)"],
+    "runs": [
+        {"name": "run.mv.layout", "files": C16F, "fn": "VerifH_C16_layout", "workers": 16, "reach": ["accepted", "rejected", "end"]},
+        {"name": "lemma.bandwidth", "files": C16F, "fn": "VerifH_C16_bandwidth", "workers": 8, "params_quick": {"N": 3}, "params_thorough": {"N": 4}, "qtimeout": 60000, "reach": ["computed"]},
+    ] + mux_runs(),
+}
